@@ -1,10 +1,15 @@
 #!/bin/sh
-# Build the framework from files on disk only (offline): translator output, Lean library + driver, harness.
+# Build the framework from files on disk only (offline): translator output, Lean library + drivers, harness bins.
 set -e
 cd "$(dirname "$0")"
 export CARGO_NET_OFFLINE=true
 python3 tools/translate.py /repo lean/LaytheVerif/Gen
-(cd lean && lake build LaytheVerif driver)
+PROPS=$(ls lean/LaytheVerif/Props/*.lean | sed 's#lean/##; s#\.lean$##; s#/#.#g')
+EXES=$(grep -A1 '^\[\[lean_exe\]\]' lean/lakefile.toml | grep '^name' | sed 's/name = "\(.*\)"/\1/')
+(cd lean && lake build $PROPS $EXES)
 cp -f /repo/Cargo.lock harness/Cargo.lock
-(cd harness && RUSTFLAGS="--cfg laythe_verif -Awarnings" cargo build --offline --quiet)
+export RUSTFLAGS="--cfg laythe_verif -Awarnings"
+(cd harness && cargo build --offline --quiet --bins)
+(cd harness && cargo build --offline --quiet --bins --features nan_boxing --target-dir target-nb)
+(cd harness && cargo build --offline --quiet --release --bin vharness)
 echo setup-ok
